@@ -6,6 +6,13 @@ from ..cachecodec import check_codec
 LEVEL = "other"
 
 
+def codec_roundtrip(chk, repo):
+    """C08-K8: caching.decode(caching.encode(g)) evaluated on model hierarchies (vlib/codecmodel.py)"""
+    from .codec_rules import codec_rules
+    codec_rules(chk, repo, "C08-K8", ("total", "roundtrip"), "decode(encode(g)) evaluated by the checker's interpreter on model hierarchies built by the package's own constructors, with a model of JSON and a symbolic "
+                "array algebra: paths, urls, names in order, dims, attributes at every depth (tuple stays tuple), array values and dtypes, the pixel array's file, ranges, shape and type code come back as they were")
+
+
 def run(chk, repo):
     chk.explanation = (
         "Decides the structural half of the round trip: the encoder and decoder of the index are sibling "
@@ -16,5 +23,6 @@ def run(chk, repo):
     )
     chk.trusted = ["json.dumps/json.loads round-trip int/float/str/bool/None/list/dict exactly (ensure_ascii default)",
                    "numpy str(datetime64) prints the full stored resolution"]
-    check_codec(chk, repo, "C08")
+    chk.attempt(codec_roundtrip, chk, repo)
+    chk.attempt(check_codec, chk, repo, "C08", covered_by="codec_roundtrip", rules=tuple(f"C08-K{i}" for i in range(1, 8)))
     chk.count("functions", 14)
